@@ -80,3 +80,24 @@ def powNatG (r : Rnd) (x : Itv) (n : Nat) : Itv :=
 
 end Itv
 end Ibex
+
+namespace Ibex
+namespace Itv
+/-- generalized division: closed pieces whose union is the closure of { x/y : x ∈ X, y ∈ Y, y ≠ 0 }
+    (0, 1 or 2 pieces; ibex's `div2`) -/
+def div2G (r : Rnd) (x y : Itv) : List Itv :=
+  let z := Ext.fin 0
+  match x, y with
+  | mk a b, mk c d =>
+    if c == z && d == z then []
+    else if a == z && b == z then [mk z z]
+    else if Ext.lt z c || Ext.lt d z then [divG r x y]
+    else
+      (if Ext.lt c z then [divG r x (mk c z)] else []) ++ (if Ext.lt z d then [divG r x (mk z d)] else [])
+  | _, _ => []
+
+/-- acceptance of an implementation answer (out1,out2): every piece is inside one of them -/
+def div2Ok (x y out1 out2 : Itv) : Bool :=
+  out1.WF && out2.WF && (div2G Rnd.dbl x y).all fun p => subset p out1 || subset p out2
+end Itv
+end Ibex
